@@ -295,7 +295,7 @@ impl<'a, 'b> Gram<'a, 'b> {
             10 => {
                 self.w("(");
                 self.expr();
-                if self.c.chance(1, 3) {
+                if self.c.chance(1, 2) {
                     // one-element tuple: the comma is mandatory
                     self.w(",)")
                 } else {
